@@ -325,7 +325,7 @@ func finish(o *Options, ov map[string]string, results []*HarnessStats, dirOf map
 }
 
 func keep(o *Options, f string) string {
-	dir := filepath.Join("/verif/evidence/replays", o.Property)
+	dir := filepath.Join(o.Root, "evidence", "replays", o.Property)
 	os.MkdirAll(dir, 0o755)
 	dst := filepath.Join(dir, filepath.Base(f))
 	b, err := os.ReadFile(f)
